@@ -916,3 +916,55 @@ Proof.
   - rewrite Hgm. reflexivity.
   - intros x Hx Hne. apply in_map_iff. exists x. split; [|exact Hx]. unfold g. apply N.eqb_neq in Hne. rewrite Hne. reflexivity.
 Qed.
+
+(* ---------- MessageUpdated with another literal: the message found under the remote id afterwards IS the new literal ---------- *)
+(* RFC822.SIZE is a function of the stored literal: [size_of] maps a literal token to the number of octets of what is
+   written to the store (the update's literal with the internal-id header).  T1: Gen/FactsConnUpdates.v
+   created_size_is_stored_size — the LiteralSize of the inserted row is the size returned by the function that builds
+   the stored literal, not len(update.Literal). *)
+Definition cu_announced_size (size_of : N -> N) (m : cu_ms) : N := size_of (ms_lit m).
+
+Lemma insert_one_spec : forall s m s', cu_insert_msgs s [m] = Some s' -> s' = cu_with_ms s (st_ms s ++ [m]).
+Proof.
+  intros s m s' H. cbn [cu_insert_msgs] in H.
+  destruct (existsb _ (st_ms s)); [discriminate|]. injection H as H. symmetry. exact H.
+Qed.
+
+Theorem message_replaced_found : forall s e rid lit flags mboxes allow m s1 sus,
+  cu_wf s -> cu_find_ms_rid s rid = Some m -> ms_lit m <> lit ->
+  cu_tx s e (UMessageUpdated rid lit flags mboxes allow) = Some (s1, sus) ->
+  exists m1, cu_find_ms_rid s1 rid = Some m1 /\ ms_lit m1 = lit /\ ms_del m1 = false.
+Proof.
+  intros s e rid lit flags mboxes allow m s1 sus W Hf Hl H. cbn [cu_tx] in H. rewrite Hf in H.
+  apply N.eqb_neq in Hl. rewrite Hl in H.
+  pose proof (remove_all_ms (ms_id m) (cu_ms_mailboxes s (ms_id m)) s) as [Hms _].
+  destruct (cu_remove_all s (ms_id m) (cu_ms_mailboxes s (ms_id m))) as [sa a] eqn:Ea. cbn [fst] in Hms.
+  destruct (e_fresh e) as [|f fr]; [discriminate|].
+  set (g := fun x => if ms_id x =? ms_id m then mkMs (ms_id x) None (ms_lit x) (ms_flags x) true else x) in *.
+  set (new := mkMs f (Some rid) lit (cu_dedup flags) false) in *.
+  destruct (cu_insert_msgs (cu_upd_ms sa (ms_id m) (fun x => mkMs (ms_id x) None (ms_lit x) (ms_flags x) true)) [new]) as [s3|] eqn:Ei; [|discriminate].
+  apply insert_one_spec in Ei.
+  destruct (cu_lookup_all s3 mboxes) as [targets|]; [|discriminate].
+  destruct (cu_add_each s3 f rid targets) as [[s4 b]|] eqn:E4; [|discriminate].
+  injection H as H1 H2. subst s4.
+  destruct (add_each_spec _ _ _ _ _ _ E4) as [_ [A2 _]].
+  exists new. split; [|split; reflexivity].
+  unfold cu_find_ms_rid. rewrite A2, Ei. unfold cu_with_ms, cu_upd_ms. cbn [st_ms]. rewrite Hms. fold g.
+  rewrite find_app_none.
+  - cbn [find new ms_rid cu_rid_is]. rewrite N.eqb_refl. reflexivity.
+  - apply find_none_of. intros x Hx. apply in_map_iff in Hx. destruct Hx as [y [Hy Hiny]]. subst x. unfold g.
+    destruct (ms_id y =? ms_id m) eqn:E; [reflexivity|].
+    destruct (cu_rid_is (ms_rid y) rid) eqn:Ey; [|reflexivity]. apply rid_is_spec in Ey.
+    pose proof (wf_ms_rid s W y rid Hiny Ey) as H1. rewrite Hf in H1. injection H1 as H1. subst y.
+    rewrite N.eqb_refl in E. discriminate.
+Qed.
+
+Theorem message_replaced_size : forall (size_of : N -> N) s e rid lit flags mboxes allow m s1 sus,
+  cu_wf s -> cu_find_ms_rid s rid = Some m -> ms_lit m <> lit ->
+  cu_tx s e (UMessageUpdated rid lit flags mboxes allow) = Some (s1, sus) ->
+  exists m1, cu_find_ms_rid s1 rid = Some m1 /\ ms_del m1 = false /\ cu_announced_size size_of m1 = size_of lit.
+Proof.
+  intros size_of s e rid lit flags mboxes allow m s1 sus W Hf Hl H.
+  destruct (message_replaced_found s e rid lit flags mboxes allow m s1 sus W Hf Hl H) as [m1 [H1 [H2 H3]]].
+  exists m1. unfold cu_announced_size. rewrite H2. auto.
+Qed.
